@@ -54,7 +54,7 @@ def cmd_replay(args):
         return 1
     spec = dict(spec)
     spec.setdefault('witness', data.get('witness'))
-    res = run_native(prop, spec)
+    res = run_native(spec.get("prop") or prop, spec)
     print(res.get('output', ''))
     print('replay:', res['status'])
     return 1 if res['status'] == 'fails' else (0 if res['status'] == 'holds' else 3)
